@@ -400,3 +400,190 @@ Proof.
   split; [exact exf_lead|]. split; [exact exf_nounder|].
   cbn [length exf_a exf_v Nat.add Nat.sub Nat.mul Nat.min INR]. pose proof u64_small. lra.
 Qed.
+
+(* package polyexact (round 4): pin blocks for the binary64 / Complex<f64> EXACTNESS theorems of C11 and C12
+   ("all of this holds exactly for exactly-representable coefficients"; "exactly over exact coefficients").
+   Format of CONVENTIONS section 2.  No scope is opened: integers carry %Z, floats %float.
+
+   Vocabulary (definitions in the files named):
+     ExactW x z   Proofs/ParDotFloat.v   the float x is finite and its real value is the integer z (a zero: either sign)
+     Exact  x z   Proofs/ParDotFloat.v   ... and x is not the negative zero: the bit pattern of x is determined by z
+     AZ, AZC      Proofs/PolyExact.v     the integers / the Gaussian integers as an arithmetic: the model functions of
+                                         Model/Poly.v run there too, and give the exact results the floats are compared with;
+                                         AZ's div answers only when the divisor divides (Panic Guard otherwise)
+     horner p x   Proofs/Poly.v          a_0 + x (a_1 + x (...)): the value of p at x (peval p x = Ok (horner p x) over a ring)
+     eval_fits zs x   := horner |zs| |x| < 2^53          (sum_i |a_i| |x|^i < 2^53)            Proofs/PolyExactF.v
+     pmul_fits zs ws  := every coefficient of |zs| * |ws| is < 2^53  (sum_i |a_i| |b_(k-i)|)   Proofs/PolyExactF.v
+     same_value r r' z := ExactW r z /\ ExactW r' z /\ (r == r') = true /\ (z <> 0 -> r = r') Proofs/PolyExactF.v
+     geom n xi    := 1 + xi + ... + xi^(n-1)                                                   Proofs/PolyExactB.v
+     CExactW, CExact, cn1 g = |re g| + |im g|, ceval_fits                                      Proofs/PolyExactC.v
+     polydiv_fits N D u v : every pass of the integer long division fits below 2^53              Proofs/PolyExactDiv.v *)
+From Coq Require Import ZArith Reals Floats Lia List Bool Arith.
+From OV Require Import Base.Panic Base.Arith gen.Params Model.Poly Model.Complex Inst.FloatInst Proofs.Poly
+  Proofs.ParDotFloat Proofs.PolyExact Proofs.PolyExactF Proofs.PolyExactB Proofs.PolyExactC Proofs.PolyExactDiv
+  Proofs.PolyExactDivZ Proofs.PolyExactDivF Proofs.PolyExactDivC Proofs.PolyExactEx.
+Import ListNotations.
+
+(* ==== C12 ==== *)
+(* binary64, integer-valued coefficients, divisor with leading coefficient +1 or -1 (monic up to sign): the float long
+   division returns EXACTLY the float images of the integer quotient and remainder -- the unique pair (q0, r0) with
+   u = q0 v + r0 and r0 zero or shorter than v -- whenever  U (1 + V)^(len u - len v + 1) < 2^53  for bounds U, V of the
+   |u_i|, |v_j| (every size met in the loop is below that number).  No panic, no error value *)
+Theorem polydiv_exact_float : forall (u v : list PrimFloat.float) (uz vz : list Z) (U V : Z),
+  Forall2 ExactW u uz -> Forall2 ExactW v vz -> vz <> [] -> (last vz 0%Z = 1%Z \/ last vz 0%Z = (-1)%Z) ->
+  (0 <= U)%Z -> Forall (fun a : Z => (Z.abs a <= U)%Z) uz -> Forall (fun b : Z => (Z.abs b <= V)%Z) vz ->
+  (length uz <= POLYDIV_MAX)%nat ->
+  (U * (1 + V) ^ Z.of_nat (length uz - length vz + 1) < 2 ^ 53)%Z ->
+  exists q r q0 r0, polydiv (A := AF) u v = Ok (inl (q, r)) /\ Forall2 ExactW q q0 /\ Forall2 ExactW r r0 /\
+    polydiv (A := AZ) uz vz = Ok (inl (q0, r0)) /\
+    (forall k, nth k uz 0%Z = nth k (padd (A := AZ) (pmul (A := AZ) q0 vz) r0) 0%Z) /\
+    (is_zero (A := AZ) r0 = true \/ (length r0 < length vz)%nat) /\
+    (forall q1 r1 : list Z,
+       (forall k, nth k uz 0%Z = nth k (padd (A := AZ) (pmul (A := AZ) q1 vz) r1) 0%Z) ->
+       (is_zero (A := AZ) r1 = true \/ (length r1 < length vz)%nat) ->
+       (forall k, nth k q0 0%Z = nth k q1 0%Z) /\ (forall k, nth k r0 0%Z = nth k r1 0%Z)).
+Proof. exact polydiv_exact_float_monic_lemma. Qed.
+Check polydiv_exact_float : forall (u v : list PrimFloat.float) (uz vz : list Z) (U V : Z),
+  Forall2 ExactW u uz -> Forall2 ExactW v vz -> vz <> [] -> (last vz 0%Z = 1%Z \/ last vz 0%Z = (-1)%Z) ->
+  (0 <= U)%Z -> Forall (fun a : Z => (Z.abs a <= U)%Z) uz -> Forall (fun b : Z => (Z.abs b <= V)%Z) vz ->
+  (length uz <= POLYDIV_MAX)%nat ->
+  (U * (1 + V) ^ Z.of_nat (length uz - length vz + 1) < 2 ^ 53)%Z ->
+  exists q r q0 r0, polydiv (A := AF) u v = Ok (inl (q, r)) /\ Forall2 ExactW q q0 /\ Forall2 ExactW r r0 /\
+    polydiv (A := AZ) uz vz = Ok (inl (q0, r0)) /\
+    (forall k, nth k uz 0%Z = nth k (padd (A := AZ) (pmul (A := AZ) q0 vz) r0) 0%Z) /\
+    (is_zero (A := AZ) r0 = true \/ (length r0 < length vz)%nat) /\
+    (forall q1 r1 : list Z,
+       (forall k, nth k uz 0%Z = nth k (padd (A := AZ) (pmul (A := AZ) q1 vz) r1) 0%Z) ->
+       (is_zero (A := AZ) r1 = true \/ (length r1 < length vz)%nat) ->
+       (forall k, nth k q0 0%Z = nth k q1 0%Z) /\ (forall k, nth k r0 0%Z = nth k r1 0%Z)).
+Print Assumptions polydiv_exact_float.
+(* u = 7 + x - 3x^3 + 2x^4 by v = 3 - 2x + x^2 (U = 7, V = 3: 7 * 4^3 = 448): q = -4 + x + 2x^2, r = 19 - 10x *)
+Example polydiv_exact_float_nonvacuous :
+  Forall2 ExactW exU exUz /\ Forall2 ExactW exV exVz /\ exVz <> [] /\ (last exVz 0%Z = 1%Z \/ last exVz 0%Z = (-1)%Z) /\
+  (0 <= 7)%Z /\ Forall (fun a : Z => (Z.abs a <= 7)%Z) exUz /\ Forall (fun b : Z => (Z.abs b <= 3)%Z) exVz /\
+  (length exUz <= POLYDIV_MAX)%nat /\ (7 * (1 + 3) ^ Z.of_nat (length exUz - length exVz + 1) < 2 ^ 53)%Z /\
+  polydiv (A := AF) exU exV = Ok (inl ([-4; 1; 2]%float, [19; -10]%float)) /\
+  polydiv (A := AZ) exUz exVz = Ok (inl ([-4; 1; 2]%Z, [19; -10]%Z)).
+Proof.
+  split; [exact exU_exact|]. split; [exact exV_exact|]. split; [discriminate|]. split; [left; reflexivity|].
+  split; [lia|]. split; [repeat constructor; cbn; lia|]. split; [repeat constructor; cbn; lia|].
+  split; [vm_compute; lia|]. repeat split; vm_compute; reflexivity.
+Qed.
+
+(* any nonzero leading coefficient (e.g. a power of two): IF the integer long division goes through (every quotient term is
+   an exact integer division: polydiv over AZ answers Ok) the same size condition U (1+V)^(len u - len v + 1) < 2^53
+   suffices: the float division returns the float images of the integer quotient and remainder, the unique pair with
+   u = q0 v + r0 and r0 zero or shorter than v *)
+Theorem polydiv_exact_float_exactdiv : forall (u v : list PrimFloat.float) (uz vz q0 r0 : list Z) (U V : Z),
+  Forall2 ExactW u uz -> Forall2 ExactW v vz -> vz <> [] -> last vz 0%Z <> 0%Z ->
+  (0 <= U)%Z -> Forall (fun a : Z => (Z.abs a <= U)%Z) uz -> Forall (fun b : Z => (Z.abs b <= V)%Z) vz ->
+  (U * (1 + V) ^ Z.of_nat (length uz - length vz + 1) < 2 ^ 53)%Z ->
+  polydiv (A := AZ) uz vz = Ok (inl (q0, r0)) ->
+  exists q r, polydiv (A := AF) u v = Ok (inl (q, r)) /\ Forall2 ExactW q q0 /\ Forall2 ExactW r r0 /\
+    (forall k, nth k uz 0%Z = nth k (padd (A := AZ) (pmul (A := AZ) q0 vz) r0) 0%Z) /\
+    (is_zero (A := AZ) r0 = true \/ (length r0 < length vz)%nat) /\
+    (forall q1 r1 : list Z,
+       (forall k, nth k uz 0%Z = nth k (padd (A := AZ) (pmul (A := AZ) q1 vz) r1) 0%Z) ->
+       (is_zero (A := AZ) r1 = true \/ (length r1 < length vz)%nat) ->
+       (forall k, nth k q0 0%Z = nth k q1 0%Z) /\ (forall k, nth k r0 0%Z = nth k r1 0%Z)).
+Proof. exact polydiv_exact_float_exactdiv_lemma. Qed.
+Check polydiv_exact_float_exactdiv : forall (u v : list PrimFloat.float) (uz vz q0 r0 : list Z) (U V : Z),
+  Forall2 ExactW u uz -> Forall2 ExactW v vz -> vz <> [] -> last vz 0%Z <> 0%Z ->
+  (0 <= U)%Z -> Forall (fun a : Z => (Z.abs a <= U)%Z) uz -> Forall (fun b : Z => (Z.abs b <= V)%Z) vz ->
+  (U * (1 + V) ^ Z.of_nat (length uz - length vz + 1) < 2 ^ 53)%Z ->
+  polydiv (A := AZ) uz vz = Ok (inl (q0, r0)) ->
+  exists q r, polydiv (A := AF) u v = Ok (inl (q, r)) /\ Forall2 ExactW q q0 /\ Forall2 ExactW r r0 /\
+    (forall k, nth k uz 0%Z = nth k (padd (A := AZ) (pmul (A := AZ) q0 vz) r0) 0%Z) /\
+    (is_zero (A := AZ) r0 = true \/ (length r0 < length vz)%nat) /\
+    (forall q1 r1 : list Z,
+       (forall k, nth k uz 0%Z = nth k (padd (A := AZ) (pmul (A := AZ) q1 vz) r1) 0%Z) ->
+       (is_zero (A := AZ) r1 = true \/ (length r1 < length vz)%nat) ->
+       (forall k, nth k q0 0%Z = nth k q1 0%Z) /\ (forall k, nth k r0 0%Z = nth k r1 0%Z)).
+Print Assumptions polydiv_exact_float_exactdiv.
+(* u = 8 + 2x + 6x^2 + 4x^3 by v = 4 + 2x (U = 8, V = 4: 8 * 5^3 = 1000) *)
+Example polydiv_exact_float_exactdiv_nonvacuous :
+  Forall2 ExactW exU2 exU2z /\ Forall2 ExactW exV2 exV2z /\ exV2z <> [] /\ last exV2z 0%Z <> 0%Z /\
+  (0 <= 8)%Z /\ Forall (fun a : Z => (Z.abs a <= 8)%Z) exU2z /\ Forall (fun b : Z => (Z.abs b <= 4)%Z) exV2z /\
+  (8 * (1 + 4) ^ Z.of_nat (length exU2z - length exV2z + 1) < 2 ^ 53)%Z /\
+  polydiv (A := AZ) exU2z exV2z = Ok (inl ([3; -1; 2]%Z, [-4]%Z)).
+Proof.
+  split; [exact exU2_exact|]. split; [exact exV2_exact|]. split; [discriminate|]. split; [discriminate|].
+  split; [lia|]. split; [repeat constructor; cbn; lia|]. split; [repeat constructor; cbn; lia|].
+  split; vm_compute; reflexivity.
+Qed.
+
+(* the general form (any leading coefficient, e.g. a power of two): if the INTEGER long division goes through -- every
+   division of a leading coefficient by that of v is exact (AZ's div) -- with answer (q0, r0), and every pass fits below
+   2^53 (polydiv_fits: the quotient term, the updated quotient, the products and the updated remainder), then the float
+   division returns the float images of (q0, r0) *)
+Theorem polydiv_exact_float_run : forall (u v : list PrimFloat.float) (uz vz q0 r0 : list Z),
+  Forall2 ExactW u uz -> Forall2 ExactW v vz -> polydiv_fits (ZA := AZ) Z.abs (fun _ _ => True) uz vz ->
+  polydiv (A := AZ) uz vz = Ok (inl (q0, r0)) ->
+  exists q r, polydiv (A := AF) u v = Ok (inl (q, r)) /\ Forall2 ExactW q q0 /\ Forall2 ExactW r r0.
+Proof. exact polydiv_exact_float_run_lemma. Qed.
+Check polydiv_exact_float_run : forall (u v : list PrimFloat.float) (uz vz q0 r0 : list Z),
+  Forall2 ExactW u uz -> Forall2 ExactW v vz -> polydiv_fits (ZA := AZ) Z.abs (fun _ _ => True) uz vz ->
+  polydiv (A := AZ) uz vz = Ok (inl (q0, r0)) ->
+  exists q r, polydiv (A := AF) u v = Ok (inl (q, r)) /\ Forall2 ExactW q q0 /\ Forall2 ExactW r r0.
+Print Assumptions polydiv_exact_float_run.
+(* u = 8 + 2x + 6x^2 + 4x^3 by v = 4 + 2x (leading coefficient 2 divides 4, -2, 6): q = 3 - x + 2x^2, r = -4 *)
+Example polydiv_exact_float_run_nonvacuous :
+  Forall2 ExactW exU2 exU2z /\ Forall2 ExactW exV2 exV2z /\ polydiv_fits (ZA := AZ) Z.abs (fun _ _ => True) exU2z exV2z /\
+  polydiv (A := AZ) exU2z exV2z = Ok (inl ([3; -1; 2]%Z, [-4]%Z)) /\
+  polydiv (A := AF) exU2 exV2 = Ok (inl ([3; -1; 2]%float, [-4]%float)).
+Proof.
+  split; [exact exU2_exact|]. split; [exact exV2_exact|]. split; [exact exU2_fits|]. split; vm_compute; reflexivity.
+Qed.
+(* an inexact leading division: x^2 by 1 + 3x.  The integer run stops (1/3); the float answer is not integer-valued *)
+Example polydiv_exact_float_run_refuted :
+  polydiv (A := AZ) [0; 0; 1]%Z [1; 3]%Z = Panic Guard /\
+  exists q r, polydiv (A := AF) [0; 0; 1]%float [1; 3]%float = Ok (inl (q, r)) /\
+    nth 1 q 0%float = (1 / 3)%float /\ ~ exists z, ExactW (1 / 3)%float z.
+Proof. exact polydiv_inexact_refuted. Qed.
+
+(* the integer side on its own: whenever the integer long division answers, u = q v + r coefficient by coefficient and r is
+   zero or shorter than v; and such a pair is unique when the leading coefficient of v is nonzero (Z is an integral domain) *)
+Theorem polydiv_int_identity_unique : forall (u v q r : list Z), polydiv (A := AZ) u v = Ok (inl (q, r)) ->
+  (forall k, nth k u 0%Z = nth k (padd (A := AZ) (pmul (A := AZ) q v) r) 0%Z) /\
+  (is_zero (A := AZ) r = true \/ (length r < length v)%nat) /\
+  (v <> [] -> last v 0%Z <> 0%Z -> forall q' r' : list Z,
+     (forall k, nth k u 0%Z = nth k (padd (A := AZ) (pmul (A := AZ) q' v) r') 0%Z) ->
+     (is_zero (A := AZ) r' = true \/ (length r' < length v)%nat) ->
+     (forall k, nth k q 0%Z = nth k q' 0%Z) /\ (forall k, nth k r 0%Z = nth k r' 0%Z)).
+Proof. intros u v q r E. destruct (polydiv_Z_identity_lemma u v q r E) as [I S]. split; [exact I|]. split; [exact S|].
+  intros Nv Lv q' r' I' S'. exact (polydiv_Z_unique_lemma u v q r q' r' Nv Lv I S I' S'). Qed.
+Check polydiv_int_identity_unique : forall (u v q r : list Z), polydiv (A := AZ) u v = Ok (inl (q, r)) ->
+  (forall k, nth k u 0%Z = nth k (padd (A := AZ) (pmul (A := AZ) q v) r) 0%Z) /\
+  (is_zero (A := AZ) r = true \/ (length r < length v)%nat) /\
+  (v <> [] -> last v 0%Z <> 0%Z -> forall q' r' : list Z,
+     (forall k, nth k u 0%Z = nth k (padd (A := AZ) (pmul (A := AZ) q' v) r') 0%Z) ->
+     (is_zero (A := AZ) r' = true \/ (length r' < length v)%nat) ->
+     (forall k, nth k q 0%Z = nth k q' 0%Z) /\ (forall k, nth k r 0%Z = nth k r' 0%Z)).
+Print Assumptions polydiv_int_identity_unique.
+Example polydiv_int_identity_unique_nonvacuous :
+  polydiv (A := AZ) exUz exVz = Ok (inl ([-4; 1; 2]%Z, [19; -10]%Z)) /\ exVz <> [] /\ last exVz 0%Z <> 0%Z.
+Proof. split; [vm_compute; reflexivity|]. split; discriminate. Qed.
+
+(* Complex<f64> with Gaussian-integer coefficients: the same for the complex long division.  The complex quotient term is
+   ((a c + b d)/(c^2 + d^2), (b c - a d)/(c^2 + d^2)): over the Gaussian integers (AZC) both divisions must be exact, and
+   cDfit asks that the six products fit:  cn1 lead(r) * cn1 lead(v) < 2^53  and  (cn1 lead(v))^2 < 2^53 *)
+Theorem cpolydiv_exact_float_run : forall (u v : list (cplx AF)) (uz vz q0 r0 : list (cplx AZ)),
+  Forall2 CExactW u uz -> Forall2 CExactW v vz -> polydiv_fits (ZA := AZC) cn1 cDfit uz vz ->
+  polydiv (A := AZC) uz vz = Ok (inl (q0, r0)) ->
+  exists q r, polydiv (A := ACF) u v = Ok (inl (q, r)) /\ Forall2 CExactW q q0 /\ Forall2 CExactW r r0.
+Proof. exact cpolydiv_exact_float_run_lemma. Qed.
+Check cpolydiv_exact_float_run : forall (u v : list (cplx AF)) (uz vz q0 r0 : list (cplx AZ)),
+  Forall2 CExactW u uz -> Forall2 CExactW v vz -> polydiv_fits (ZA := AZC) cn1 cDfit uz vz ->
+  polydiv (A := AZC) uz vz = Ok (inl (q0, r0)) ->
+  exists q r, polydiv (A := ACF) u v = Ok (inl (q, r)) /\ Forall2 CExactW q q0 /\ Forall2 CExactW r r0.
+Print Assumptions cpolydiv_exact_float_run.
+(* u = (2-i) + 3i x + (1+i) x^2 + 2 x^3 by the monic v = (1+i) + x *)
+Example cpolydiv_exact_float_run_nonvacuous :
+  Forall2 CExactW exCU exCUz /\ Forall2 CExactW exCV exCVz /\ polydiv_fits (ZA := AZC) cn1 cDfit exCUz exCVz /\
+  (exists q0 r0, polydiv (A := AZC) exCUz exCVz = Ok (inl (q0, r0)) /\
+     exists q r, polydiv (A := ACF) exCU exCV = Ok (inl (q, r)) /\ length q = 3%nat /\ length r = 1%nat).
+Proof.
+  split; [exact exCU_exact|]. split; [exact exCV_exact|]. split; [exact exCU_fits|].
+  eexists _, _. split; [vm_compute; reflexivity|]. eexists _, _. split; [vm_compute; reflexivity|]. split; reflexivity.
+Qed.
+
